@@ -50,6 +50,11 @@ def pattern_atom(r, txn, variables=()):
     k = r.random()
     if k < 0.30:
         return f'contains("{tok_s}")'
+    if k < 0.315:
+        # a catch-all alternation of many spellings: the pattern-length component of the ranking can be arbitrarily large
+        alts = [tok] + [r.choice(MERCHANT_TOKENS) + r.choice(['', ' STORE', ' INC', ' #12']) for _ in range(r.choice([12, 20, 30]))]
+        r.shuffle(alts)
+        return 'regex("' + '|'.join(alts) + '")'
     if k < 0.38:
         first = words[0] if hit else r.choice(MERCHANT_TOKENS)
         return f'startswith("{first}")'
@@ -111,6 +116,12 @@ def gen_tags(r, txn):
             out.append('{field.%s}' % r.choice(FIELD_NAMES))
         elif k < 0.93:
             out.append('{extract(field.memo, "PROJ:(\\\\w+)")}')
+        elif k < 0.945:
+            # the text of a dynamic tag is an expression: its letter case is part of its meaning (\\S vs \\s, "UBER" vs "uber")
+            out.append(r.choice(['{extract(description, "^(\\\\S+)")}', '{regex_replace(source, "\\\\W", "")}', '{regex_replace(description, "\\\\D", "")}',
+                                 '{description.replace("UBER", "x").replace("AMAZON", "y")}',
+                                 '{"first" if description.startswith("UBER") or description.startswith("AMAZON") else "other"}',
+                                 '{split(description, "E", 0)}']))
         elif k < 0.96:
             # braces inside the expression of a dynamic tag (counted repetition)
             out.append(r.choice(['{extract(field.memo, "PROJ:(\\\\w{3,4})")}', '{extract(description, "([A-Z]{4})")}',
@@ -120,7 +131,7 @@ def gen_tags(r, txn):
     return out
 
 
-def gen_rules_file(r, txn, n=None, force_ties=False, dup_names=False):
+def gen_rules_file(r, txn, n=None, force_ties=False, dup_names=False, let_twins=False, long_patterns=False):
     """Returns an abstract rules file: dict(variables, transforms, rules=[dict(...)])."""
     n = n if n is not None else r.choice([1, 2, 3, 4, 5, 6, 8])
     variables = {}
@@ -168,9 +179,20 @@ def gen_rules_file(r, txn, n=None, force_ties=False, dup_names=False):
             rule['lets'] = [('big', 'amount > 100'), ('lbl', 'lowercase(description)')][:r.choice([1, 2])]
             if r.random() < 0.5:
                 rule['match'] = rule['match'] + ' and (big or amount <= 100)'
+        if let_twins and r.random() < 0.3:
+            rule['lets'] = [('hit', gen_match(r, txn, tuple(variables)))]
+            rule['match'] = r.choice(['hit', 'hit and amount == amount'])
         if r.random() < 0.15 and not tag_only:
             rule['fields'] = [('kind', 'extract(description, "([A-Z]+)")'), ('amt2', 'amount * 2')][:r.choice([1, 2])]
         rules.append(rule)
+    if long_patterns and rules:
+        # one rule becomes a catch-all alternation of many spellings (true of the transaction): hundreds of characters of pattern text
+        words = [w for w in txn['description'].upper().split() if w.isalnum()] or ['UBER']
+        alts = [r.choice(words)] + [r.choice(MERCHANT_TOKENS) + r.choice(['', ' STORE', ' INC', ' 12', ' MARKETPLACE']) for _ in range(r.choice([10, 18, 30, 60]))]
+        r.shuffle(alts)
+        victim = r.choice(rules)
+        victim['match'] = 'regex("' + '|'.join(alts) + '")' + (r.choice(['', '', f' and {pattern_atom(r, txn, tuple(variables))}']))
+        victim.pop('lets', None)
     return {'variables': variables, 'transforms': transforms, 'rules': rules}
 
 
@@ -244,6 +266,8 @@ def gen_csv_rules(r, txn, n=None, expression_like=True):
         if tag_only and not tags:
             tags = 'misc'
         cell = pat + mods
+        if mods and r.random() < 0.1:
+            cell = mods                        # a row that says only "[amount>=1000]": the empty pattern is found in every description
         if rows and r.random() < 0.12:
             cell = r.choice(rows)[0]           # merged / appended files repeat a Pattern cell; the EARLIER row still decides
         rows.append((cell, f'M{i} {tok.title()}', '' if tag_only else cat[0], '' if tag_only else cat[1], tags))
